@@ -106,6 +106,7 @@ STUB_SETS = {
     "width": ["console::measure_text_width, crate::verif_common::stub_width"],
     "widthascii": ["console::measure_text_width, crate::verif_common::stub_width_ascii"],
     "repeat": ["str::repeat, crate::verif_common::stub_repeat"],
+    "replacetab": ["str::replace, crate::verif_common::stub_replace_tab"],
     "now": ["std::time::Instant::now, crate::verif_common::stub_now"],
     "noterm": ["console::Term::is_term, crate::draw_target::verif_rig_dt::no_term_is_term",
                "console::Term::size, crate::draw_target::verif_rig_dt::no_term_size"],
